@@ -89,9 +89,10 @@ def obligations(tier):
             obs.append(Ob(id=f'ieee_offset/covariance/{m}x{p}/off{off}', harness='C11/ieee_offset.c', tus=T, defs={'HP_M': m, 'HP_P': p, 'HP_OFFSET': off, 'HP_FULL': 0}, engine='bits', unwind=8, timeout=300 if not thorough else 1800,
                           clause='covariance / variance in IEEE arithmetic on offset data', stubs=('sym_bits_env.c',), object_bits=10))
     # sorting: E-BITS (comparison-only float logic)
-    for rows in ([1, 2, 3, 4] if not thorough else [1, 2, 3, 4, 5]):
+    for rows in ([0, 1, 2, 3, 4] if not thorough else [0, 1, 2, 3, 4, 5]):
         for cols in (1, 2):
             for rev in (0, 1):
                 obs.append(Ob(id=f'sort/{"rev" if rev else "asc"}/{rows}x{cols}', harness='C11/sort.c', tus=T, defs={'HP_M': rows, 'HP_P': cols, 'HP_REVERSE': rev},
-                              engine='bits', unwind=rows + cols + 3, timeout=to, clause='sorting'))
+                              engine='bits', unwind=rows + cols + 3, timeout=to, clause='sorting',
+                              unwind_goal=('MatrixSort.unwind', 'MatrixReverseSort.unwind') if rows == 0 else ()))      # no rows: the loops must not run at all (a wrapped bound would never return)
     return obs
